@@ -44,9 +44,29 @@ ASSUMPTIONS = ['apertures and OPDs are smooth on the sampling grid (property qua
 
 SCALES = [0.5, 0.75, 1.0, 1.25, 1.5, 2.0, 2.5, 3.0, 4.0]
 
+def gen_extreme(rng):
+    """seams: nano-scale and huge pixel scales (absolute tolerances bite there), target pixel scales a hair away from the current one,
+    planes with more than 54 segments, large one-dimension-like grids"""
+    t = int(rng.integers(0, 4))
+    base = {'kind': 'rescale', 'segments': 1, 'pxmode': 'uniform', 'hseed': int(rng.integers(0, 2**31)), 'amp_scalar': False, 'opd_scalar': False,
+            'pre_tilt': False, 'int_mask': False, 'twice': False, 'propagate': False}
+    if t == 0:      # many segments
+        S = int(rng.choice([56, 60, 64, 70]))
+        return {**base, 'shape': [int(rng.integers(24, 30)), int(2.5 * S) + int(rng.integers(0, 9))], 'segments': S,
+                'scale': float(rng.choice([0.75, 1.25, 1.5, 2.0, 2.5])), 'px': 1e-3, 'extreme': 'many-segments'}
+    n0 = int(rng.integers(24, 41)); n1 = int(rng.integers(24, 41))
+    px = float(rng.choice([1e-9, 3.3e-9, 1e-8, 2.5e-7, 1e3]))
+    sc = float(rng.choice([0.5, 0.75, 1.25, 1.5, 2.0, 3.0]))
+    if t == 1:
+        return {**base, 'shape': [n0, n1], 'scale': sc, 'px': px, 'extreme': 'tiny/huge-pixelscale', 'propagate': bool(rng.integers(0, 2) and px < 1)}
+    if t == 2:
+        return {**base, 'kind': 'resample', 'shape': [n0, n1], 'scale': sc, 'px': px, 'new_px': px / sc, 'extreme': 'tiny/huge-pixelscale'}
+    return {**base, 'shape': [int(rng.integers(24, 28)), int(rng.integers(300, 700))], 'scale': float(rng.choice([0.5, 1.5])), 'px': 1e-3, 'extreme': 'long-grid'}
+
 def generate(rng, tier):
     n = {'quick': 70, 'thorough': 700, 'search': 150}[tier]
     out = []
+    for _ in range({'quick': 4, 'thorough': 40, 'search': 60}[tier]): out.append(gen_extreme(rng))
     for k in range(n):
         n0 = int(rng.integers(24, 57)); n1 = n0 if rng.integers(0, 3) == 0 else int(rng.integers(24, 57))
         c = {'kind': 'rescale', 'shape': [n0, n1], 'segments': [1, 1, 2, 3][int(rng.integers(0, 4))], 'scale': SCALES[int(rng.integers(0, len(SCALES)))],
@@ -70,7 +90,8 @@ def signature(c): return (f"{c['kind']} {c['shape']} seg={c['segments']} s={c['s
                           f"a0={c['amp_scalar']} o0={c['opd_scalar']}")
 def nontrivial(c): return c['scale'] != 1.0 or c['segments'] > 1 or c['shape'][0] != c['shape'][1] or c['kind'] == 'refuse'
 def tags(c):
-    t = [c['kind'], f"scale:{c['scale']}", f"segments:{c['segments']}", 'px:' + c['pxmode']]
+    t = [c['kind'], f"scale:{c['scale']}", f"segments:{min(c['segments'], 55)}{'+' if c['segments'] >= 55 else ''}", 'px:' + c['pxmode']]
+    if c.get('extreme'): t.append('extreme:' + c['extreme'])
     if c['shape'][0] != c['shape'][1]: t.append('non-square')
     if c['shape'][0] % 2: t.append('odd-rows')
     if c['int_mask']: t.append('int-mask')
@@ -106,6 +127,8 @@ def _plane(c, lentil):
     if S == 1: mask = base
     else:
         mask = np.zeros((S, n0, n1)); e = np.linspace(0, n1, S + 1).astype(int)
+        if S > 8:       # many narrow strips: keep them inside the well-supported columns, the outer strips take the margins
+            e = np.linspace(0.1 * n1, 0.9 * n1, S + 1).astype(int); e[0] = 0; e[-1] = n1
         for s in range(S): mask[s, :, e[s]:e[s + 1]] = base[:, e[s]:e[s + 1]]
     if c['int_mask']: mask = mask.astype(int)
     P = lentil.Pupil(amplitude=(0.75 if c['amp_scalar'] else amp), opd=(2.5e-8 if c['opd_scalar'] else opd), mask=mask,
